@@ -283,11 +283,13 @@ BlockBoxes == { b \in ({0,1,2} \X {0,1,2} \X {0,1,2}) \X ({0,1,2} \X {0,1,2} \X 
                   \A i \in 1..3 : b[1][i] < b[2][i] }
 BoxCombos(n) == UNION { kSubset(k, BlockBoxes) : k \in 1..n }
 UnionOf(combo) == UNION { BoxCells(b) : b \in combo }
-ASolids(n) ==
-  LET combos == BoxCombos(n)
-      sets == { UnionOf(c) : c \in combos }
-  IN { LET c == CHOOSE c \in combos : UnionOf(c) = X /\ \A d \in combos : UnionOf(d) = X => Cardinality(d) >= Cardinality(c)
-       IN SetToSeq(c) : X \in sets }
+(* a smallest set of boxes (out of `boxes`) whose union is the cell set X      *)
+RECURSIVE MinCombo(_, _, _)
+MinCombo(X, boxes, k) ==
+  LET hits == { c \in kSubset(k, boxes) : UnionOf(c) = X }
+  IN IF hits # {} THEN CHOOSE c \in hits : TRUE ELSE MinCombo(X, boxes, k + 1)
+Decompose(X, boxes) == SetToSeq(MinCombo(X, { b \in boxes : BoxCells(b) \subseteq X }, 1))
+ASolids(n) == { Decompose(X, BlockBoxes) : X \in { UnionOf(c) : c \in BoxCombos(n) } }
 BSolid(name) ==
   CASE name = "cube2"   -> << << <<-1,-1,-1>>, <<1,1,1>> >> >>                       \* origin interior, convex
     [] name = "cell"    -> << << <<0,0,0>>, <<1,1,1>> >> >>                          \* origin at a corner
@@ -295,28 +297,28 @@ BSolid(name) ==
     [] name = "bar"     -> << << <<-1,0,-1>>, <<0,1,1>> >> >>                        \* origin on an edge, asymmetric
     [] name = "Lin"     -> << << <<-1,-1,-1>>, <<1,1,1>> >>, << <<1,-1,-1>>, <<2,0,1>> >> >>   \* L, origin interior
     [] name = "Lflat"   -> << << <<-1,-1,0>>, <<1,0,1>> >>, << <<-1,0,0>>, <<0,1,1>> >> >>     \* L, origin on the reflex edge
+    [] name = "Lbig"    -> << << <<-2,-2,-2>>, <<2,2,2>> >>, << <<-3,-2,-2>>, <<-2,0,2>> >> >> \* L thicker than every A of the block
 BNames(name) ==
   CASE name = "MKc" -> {"cube2", "cell", "slab", "bar"}      \* convex structuring solids
-    [] name = "MKn" -> {"Lin", "Lflat"}                      \* non-convex structuring solids
+    [] name = "MKn" -> {"Lin", "Lflat", "Lbig"}              \* non-convex structuring solids
     [] name = "MK2" -> {"cube2", "cell", "slab", "bar", "Lin", "Lflat"}
+    [] name = "MKb2" -> {"Lbig"}
 (* solids with room for a non-empty erosion: unions of <= n prisms of height 2 *)
 (* (z from -1 to 1) over rectangles of the 3x3 grid with corners in -1..2      *)
 PrismBoxes == { << <<r[1], r[2], -1>>, <<r[3], r[4], 1>> >> :
                   r \in { q \in (-1..2) \X (-1..2) \X (-1..2) \X (-1..2) : q[1] < q[3] /\ q[2] < q[4] } }
 PSolids(n) ==
-  LET combos == UNION { kSubset(k, PrismBoxes) : k \in 1..n }
-      sets == { UnionOf(c) : c \in combos }
-  IN { LET c == CHOOSE c \in combos : UnionOf(c) = X /\ \A d \in combos : UnionOf(d) = X => Cardinality(d) >= Cardinality(c)
-       IN SetToSeq(c) : X \in { Y \in sets : Cardinality(Y) >= 8 } }
+  LET sets == { UnionOf(c) : c \in UNION { kSubset(k, PrismBoxes) : k \in 1..n } }
+  IN { Decompose(X, PrismBoxes) : X \in { Y \in sets : Cardinality(Y) >= 8 } }
 MinkCases(name) ==
   IF name = "MD2"
   THEN { [A |-> a, B |-> BSolid(b), bname |-> b, only |-> "diff"] : a \in PSolids(2), b \in {"cell", "slab", "Lflat"} }
   ELSE { [A |-> a, B |-> BSolid(b), bname |-> b, only |-> "all"] :
-           a \in ASolids(IF name = "MK2" THEN 2 ELSE 3), b \in BNames(name) }
+           a \in ASolids(IF name \in {"MK2", "MKb2"} THEN 2 ELSE 3), b \in BNames(name) }
 
 IsPtsFamily(name) == name \in {"M222","M222s","M222x","S223s","S223","S223x","S333a","S333b","S333c","NAMED"}
 IsCellFamily(name) == name \in {"C221","C222","C222s"}
-IsMinkFamily(name) == name \in {"MKc","MKn","MK2","MD2"}
+IsMinkFamily(name) == name \in {"MKc","MKn","MK2","MD2","MKb2"}
 
 (* ======================= facts computed by the specification ============== *)
 (* two sub-clouds P1 = P without the extreme point e1, P2 = P without e2, both *)
